@@ -364,4 +364,25 @@ def loadBytes (b : List Nat) : Option J :=
   | none => none
   | some t => parse t
 
+-- what CPython's encoder refuses -------------------------------------------------------------------------------------------
+
+mutual
+/-- no integer anywhere in the value needs more than `maxStrDigits` decimal digits (`str(int)` raises `ValueError` beyond that, and with it
+`json.dumps` / `canonserialize`) -/
+def J.intsOK : J → Bool
+  | .int z => decide (z.natAbs < 10 ^ maxStrDigits)
+  | .arr xs => intsOKs xs
+  | .obj kvs => intsOKm kvs
+  | _ => true
+def intsOKs : List J → Bool
+  | [] => true
+  | x :: xs => x.intsOK && intsOKs xs
+def intsOKm : List (PStr × J) → Bool
+  | [] => true
+  | (_, v) :: kvs => v.intsOK && intsOKm kvs
+end
+
+/-- `canonserialize(v)` as CPython runs it: `none` = `ValueError` ("Exceeds the limit (4300 digits) for integer string conversion") -/
+def serPy (v : J) : Option Txt := if v.intsOK then some (ser v) else none
+
 end CCT
